@@ -12,11 +12,15 @@ using namespace mcb;
 static double ival(int i, int j, int set, int salt) { return double(((i * 7 + j * 3 + set * 5 + salt * 11 + i * j) % 7) - 3); }
 
 // ---------------- d_matrix_product
-template<int N, int NV, bool Dyn>
+// Storage of the arguments: 0 plain column-major, 1 row-major, 2 views into larger matrices (outer stride != rows):
+// "returns the product rule" cannot depend on how the caller stores the factors.
+template<int N, int NV, int Var>
 static double dmp_case(int set)
 {
-  using MA  = std::conditional_t<Dyn, Eigen::MatrixXd, Eigen::Matrix<double, N, N>>;
-  using MdA = std::conditional_t<Dyn, Eigen::MatrixXd, Eigen::Matrix<double, N, N * NV>>;
+  constexpr int RM = (Var == 1 && N > 1) ? Eigen::RowMajor : (N == 1 && N * NV > 1 ? Eigen::RowMajor : Eigen::ColMajor);
+  constexpr int RMsq = (Var == 1 && N > 1) ? Eigen::RowMajor : Eigen::ColMajor;
+  using MA  = Eigen::Matrix<double, N, N, RMsq>;
+  using MdA = Eigen::Matrix<double, N, N * NV, RM>;
   MA A(N, N), Bm(N, N);
   MdA dA(N, N * NV), dB(N, N * NV);
   for (int i = 0; i < N; ++i)
@@ -29,7 +33,24 @@ static double dmp_case(int set)
       dA(i, j) = ival(i, j, set, 3);
       dB(i, j) = ival(i, j, set, 4);
     }
-  const auto R = smooth::d_matrix_product(A, dA, Bm, dB);
+  Eigen::Matrix<double, N, N * NV> R;
+  if constexpr (Var == 2) {
+    // the same data seen through blocks of larger (garbage-filled) matrices
+    Eigen::Matrix<double, N + 2, N + 1> bigA, bigB;
+    Eigen::Matrix<double, N + 3, N * NV + 2> bigdA, bigdB;
+    bigA.setConstant(977.);
+    bigB.setConstant(-613.);
+    bigdA.setConstant(41.);
+    bigdB.setConstant(-59.);
+    bigA.template block<N, N>(1, 1)        = A;
+    bigB.template topLeftCorner<N, N>()    = Bm;
+    bigdA.template block<N, N * NV>(2, 1)  = dA;
+    bigdB.template topRows<N>().template leftCols<N * NV>() = dB;
+    R = smooth::d_matrix_product(bigA.template block<N, N>(1, 1), bigdA.template block<N, N * NV>(2, 1), bigB.template topLeftCorner<N, N>(),
+      bigdB.template topRows<N>().template leftCols<N * NV>());
+  } else {
+    R = smooth::d_matrix_product(A, dA, Bm, dB);
+  }
   if (R.rows() != N || R.cols() != N * NV) return INFINITY;
   // reference: d(AB)(i,j)/dk = sum_l dA(i,l)/dk B(l,j) + A(i,l) dB(l,j)/dk with layout X'(j, i*nvar+k) = dX(i,j)/dk
   double err = 0;
@@ -43,23 +64,29 @@ static double dmp_case(int set)
   return err;
 }
 template<int N, int NV>
-static double dmp_static(int set) { return dmp_case<N, NV, false>(set); }
+static double dmp_static(int set) { return dmp_case<N, NV, 0>(set); }
+template<int N, int NV>
+static double dmp_rowmajor(int set) { return dmp_case<N, NV, 1>(set); }
+template<int N, int NV>
+static double dmp_views(int set) { return dmp_case<N, NV, 2>(set); }
 
 MC_SUBCHECK(d_matrix_product)
 {
   using Fn = double (*)(int);
-  struct Cfg { int n, nv; Fn f; };
-  std::vector<Cfg> cfgs = {
-    {1, 1, dmp_static<1, 1>}, {1, 2, dmp_static<1, 2>}, {1, 3, dmp_static<1, 3>}, {2, 1, dmp_static<2, 1>}, {2, 2, dmp_static<2, 2>},
-    {2, 3, dmp_static<2, 3>}, {3, 1, dmp_static<3, 1>}, {3, 2, dmp_static<3, 2>}, {3, 3, dmp_static<3, 3>}, {4, 1, dmp_static<4, 1>},
-    {4, 2, dmp_static<4, 2>}, {4, 3, dmp_static<4, 3>}, {5, 2, dmp_static<5, 2>}, {6, 6, dmp_static<6, 6>}, {3, 6, dmp_static<3, 6>},
-    {6, 1, dmp_static<6, 1>}};
+  struct Cfg { int n, nv; Fn f[3]; };
+#define CFG(N, NV) {N, NV, {dmp_static<N, NV>, dmp_rowmajor<N, NV>, dmp_views<N, NV>}}
+  std::vector<Cfg> cfgs = {CFG(1, 1), CFG(1, 2), CFG(1, 3), CFG(2, 1), CFG(2, 2), CFG(2, 3), CFG(3, 1), CFG(3, 2), CFG(3, 3), CFG(4, 1), CFG(4, 2), CFG(4, 3),
+    CFG(5, 2), CFG(6, 6), CFG(3, 6), CFG(6, 1)};
+#undef CFG
   const uint64_t nsets = 3;
-  mc::explore("C05/d_matrix_product/static", cfgs.size() * nsets, [&](mc::Case & c) {
-    const auto & cf = cfgs[c.idx / nsets];
-    const int set   = int(c.idx % nsets);
-    c.desc = [&, set] { return mc::fmt("N=%d nvar=%d dataset=%d (integer data ival(i,j,set,salt))", cf.n, cf.nv, set); };
-    c.judge("d_matrix_product=product rule (exact on integers)", cf.f(set), 0.0);
+  static const char * vn[3] = {"column-major", "row-major", "views into larger matrices"};
+  mc::explore("C05/d_matrix_product/static", cfgs.size() * nsets * 3, [&](mc::Case & c) {
+    mc::Radix r(c.idx);
+    const int set   = int(r.next(nsets));
+    const int var   = int(r.next(3));
+    const auto & cf = cfgs[r.next(cfgs.size())];
+    c.desc = [&, set, var] { return mc::fmt("N=%d nvar=%d dataset=%d storage=%s (integer data ival(i,j,set,salt))", cf.n, cf.nv, set, vn[var]); };
+    c.judge("d_matrix_product=product rule (exact on integers)", cf.f[var](set), 0.0);
   });
 }
 
